@@ -66,6 +66,11 @@ Proof. exact defaults_unhashed_refuted. Qed.
 Theorem C01_current_source_hashes_defaults : defaults_hashed = Some true.
 Proof. exact defaults_hashed_ok. Qed.
 
+(** in the model every plain helper a reachable function refers to is hashed ([SPlain true]); the current
+    source hashes the helpers of each memento function's own package, whichever package the root is in *)
+Theorem C01_current_source_scope_follows_memento_function : scope_follows_memento_fn = Some true.
+Proof. exact scope_follows_memento_fn_ok. Qed.
+
 (** the bytes fed to the digest are the rule hashes concatenated: they determine the list of
     rule hashes when all have one width, and do not otherwise; the current source gives
     explicit versions the common width *)
